@@ -304,6 +304,8 @@ def gen_rpms(rng):
             ver, rel = rng.choice(R_VERSIONS), rng.choice(R_RELEASES)
             srcarch = rng.choice(["src", "src", "nosrc"])
             srpm = "%s-%d:%s-%s.%s" % (name, epoch, ver, rel, srcarch)
+            if any(srpm in cell for cell in rpms.get(variant, {}).values()):
+                continue                                # one source package, one entry in the variant's src table
             sdata = {"path": "%s/source/SRPMS/%s/%s-%s-%s.%s.rpm" % (variant, name[0], name, ver, rel, srcarch),
                      "sigkey": rng.choice(R_SIGKEYS), "category": "source"}
             with_src = rng.random() < 0.75
@@ -435,6 +437,15 @@ class C05(Prop):
             IF.make_unique(spec["pool"])
             for i, s in zip(spec["pool"], keep):
                 i["subvariant"] = s
+        if L.vt(ver) <= (1, 0) and spec["adds"] and rng.random() < 0.08:
+            # F11 region: two images that differ only in subvariant (and content) - indistinguishable once it is gone
+            v, a, idx = spec["adds"][0]
+            twin = copy.deepcopy(spec["pool"][idx])
+            twin["path"] = "twin/" + twin["path"]
+            twin["subvariant"] = twin["subvariant"] + "2"
+            twin["checksums"] = dict((k, x[::-1]) for k, x in twin["checksums"].items())
+            spec["pool"].append(twin)
+            spec["adds"].append([v, a, len(spec["pool"]) - 1])
         # source images: one object per variant filed under every binary arch of the variant
         cells = IF.cells_of_adds(spec["pool"], spec["adds"])
         for v, d in list(cells.items()):
